@@ -4,7 +4,9 @@
 // helpers of mp4 is run on hostile inputs inside the isolated workers of the
 // runner; a recovered panic, a worker death (OOM, stack), an exceeded CPU
 // budget, or more than 8 MiB + 1024*len bytes allocated by one call is a
-// violation.
+// violation. The two command line tools that are anchors of the property
+// (mp4ff-nallister, mp4ff-pslister) get the same material as Annex B streams
+// (tools.go) and wrapped into mp4 files (mp4wrap.go).
 package c16
 
 import (
@@ -93,6 +95,18 @@ func buildPlan(env *runner.Env) {
 		{"sei-ffsize", seiFFSizeCount()},
 		{"mp4-tool", mp4ToolCount(th)},
 	}
+	if only := os.Getenv("C16_ONLY"); only != "" {
+		// development aid (mutant validation of one generator): C16_ONLY=mp4-tool,sei-ffsize keeps only these plan entries
+		var keep []planEntry
+		for _, p := range plan {
+			for _, k := range strings.Split(only, ",") {
+				if p.kind == k {
+					keep = append(keep, p)
+				}
+			}
+		}
+		plan = keep
+	}
 	planTotal = 0
 	for _, p := range plan {
 		planTotal += p.count
@@ -131,8 +145,16 @@ func init() {
 			"ps-struct (parameter sets that are hostile by construction, written with a local bit layout of the HEVC SPS, PPS and slice segment header and of the AVC PPS: counts decoupled from what is present, byte-wrapping values, every extension forced on. Full products of the groups of fields that interact: " +
 			"num_short_term_ref_pic_sets 0..1000 x six ways of coding the sets (explicit, chains of inter-predicted sets with all / use_delta / no entries kept, alternating) x size of set 0; sps_scc_extension with bit depths 0..255 x sps_num_palette_predictor_initializers_minus1 0..2^64-1 x chroma format; POC width x long-term pictures; the 16 combinations of the SPS extension flags x sps_extension_4bits; picture size x coding block sizes; " +
 			"PPS tiles; pps_range_extension; pps_multilayer_extension (num_ref_loc_offsets, colour mapping table with every octant depth / partition number and bit depths up to 2^64-1); pps_3d_extension (depth layers x bit depth x every dlt coding); pps_scc_extension (initializer count x entry bit depths up to 2^64-1); AVC PPS slice groups (count x map type 0..7 x run length / rate / map size up to 2^64-1); " +
-			"and a random part that draws every field at once. Each set is parsed together with its benign partner, then sent through every entry point, then slices laid out for it run against it: short_term_ref_pic_set_idx = N-1, N, all ones; slice-local sets predicted from the last / first / a non-existing SPS set; num_long_term_sps/pics, num_entry_point_offsets and slice_segment_header_extension_length at their extremes), flip (bit flips/boundary bytes/cuts/inserts), lenprefix (hostile 4-byte length fields, samples of 0..7 bytes), splice, stream (mutated Annex B streams). " +
-			"2 % of the cases (chain-ue: one variant of every 10th position) also go through the mp4ff-nallister and mp4ff-pslister binaries. " +
+			"and a random part that draws every field at once. Each set is parsed together with its benign partner, then sent through every entry point, then slices laid out for it run against it: short_term_ref_pic_set_idx = N-1, N, all ones; slice-local sets predicted from the last / first / a non-existing SPS set; num_long_term_sps/pics, num_entry_point_offsets and slice_segment_header_extension_length at their extremes), flip (bit flips/boundary bytes/cuts/inserts), lenprefix (hostile 4-byte length fields, samples of 0..7 bytes), splice, stream (mutated Annex B streams), " +
+			"sei-ffsize (SEI NAL units whose payload size or type field is a run of k = 1..65000 ff bytes x 3 payload types x avc/hevc x 5 endings; sei.ExtractSEIData allocates the announced 255*k bytes before reading: the SEI extraction calls on these inputs are also measured exactly with runtime.MemStats and the largest allocated/input ratio is recorded as maxima.sei_extraction_*, an observation - a factor of <= 256+ stays inside the bound below), " +
+			"mp4-tool (the mp4 input paths of the two tools: hostile length-prefixed samples and hostile avcC/hvcC configuration records wrapped into structurally valid mp4 files, so that mp4.DecodeFile accepts the file and the tool code behind it runs. " +
+			"Frames: progressive with moov first / mdat first, fragmented init + styp/moof/mdat, a media segment without moov (codec from -c) - written byte-wise by a local box writer, every size and offset computed from what was written - " +
+			"and /repo's own files: cmd/mp4ff-nallister/testdata/h264.mp4 and hevc.mp4 with the first two samples replaced in place (same sample sizes: padded with one filler NAL unit or cut) and the avcC/hvcC box replaced with the sizes of all ancestors and, where mdat follows, the chunk offsets adjusted (located with the independent box walker ref/boxwalk), mp4/testdata/init.mp4 and hvc1_init.mp4 followed by a segment written for their track id; sample entries avc1/avc3/hvc1/hev1. " +
+			"21 configuration-record classes: valid; no configuration box; zero SPS; zero SPS and zero PPS / no arrays; zero PPS / VPS only; no VPS / empty PPS; counts of 0 with the sets still following / arrays announcing 0 NAL units; counts beyond the data; 16-bit lengths beyond the data; lengths shorter than the unit; parameter sets of length 0; header-only sets; cut sets; mutated / forced-ue sets; hand-built HRD SPS; wrong NAL type in a slot, array types 0/63; 31 SPS / 255 PPS / duplicated arrays / 40 units per array; lengthSizeMinusOne 0..2; configurationVersion and trailer variants; record cut after k bytes; byte-mutated record. " +
+			"12 sample classes: valid; a zero 4-byte length field first / in the middle / last / alone / three in a row; header-only NAL units of every type (1 byte, hevc 1..2 bytes); hostile length fields (the lenprefix generator); samples of 0..7 bytes; mutated units; hostile SEI units (payload shorter than the fixed header, size beyond the data, ff-run sizes); mutated / HRD in-band parameter sets followed by SEI and a slice; const units; an empty sample; a cut sample; samples of the other codec. " +
+			"Systematic part: codec x frame x (every record class with valid samples + every sample class with a valid record + every sample class with a record without parameter sets or without configuration box, where the tools look for the parameter sets in the samples), then random combinations (quick 900, thorough 12 000). " +
+			"Each file goes to mp4ff-nallister (no options; -c codec -sei 1 -ps; -c codec -sei 2 -raw 8 -m 1; segments without moov also -c <other codec> -sei 1) and mp4ff-pslister (-c codec -i f; -c codec -v -i f); its first two samples and the record also go through the library operations. A file with valid samples and a valid record must be accepted by both tools (checked in Finalize; mp4ff-pslister cannot read a segment without moov)). " +
+			"2 % of the cases of the other generators (chain-ue: one variant of every 10th position) also go through the mp4ff-nallister and mp4ff-pslister binaries as Annex B streams / hex arguments. Tool verdicts: exit status 2 or a Go crash dump on stderr -> tool/<tool>/<main function>/<class> (the library key when the top frame is library code); more than 6 s CPU -> tool/<tool>/hang/cpu; resident set above 512 MiB + 1024*len(file) -> tool/<tool>/alloc/rss. " +
 			"The library calls that build the plan in each worker (parsing the seeds' own parameter sets, selecting the slices a context accepts) run under a recover wrapper: a panic there is recorded with its input and reported by case 0 as a violation, the unit counts as rejected. The library calls run in a probe subprocess of each worker whose monitor goroutine watches the call in flight " +
 			"(bytes allocated since the call started, runtime/metrics /gc/heap/allocs:bytes, against 8 MiB + 1024*len; process CPU time against 2 s + 20 us*len, a CPU exceedance must be reproduced in a fresh probe; " +
 			"after a hang key is confirmed, calls found at 30 ms CPU inside the same function are aborted and counted as presumed repeats, not reported); the runner watchdog (6 s CPU per case, RLIMIT_AS 3 GiB) is the backstop. " +
@@ -141,6 +163,8 @@ func init() {
 			"external SEI parameters stay inside what a parsed SPS can produce (5-bit length fields 0..31)",
 			"allocation is measured as the cumulative heap allocation delta of the worker (GOMAXPROCS=2, nothing else running); small-object accounting lags by at most a few spans, far below the 8 MiB slack",
 			"the plan (which contexts and slices exist) depends on what the library accepts during setup; a hang or an allocation blow-up of the library on the well-formed setup inputs themselves would still end as a harness failure (only panics are recovered there)",
+			"mp4-tool: the container around the hostile bytes is well-formed (box sizes, sample tables and offsets consistent with what was written); hostile container fields are the subject of C04 and are not varied here. A sample entry without avcC/hvcC box and records with zero parameter sets count as configuration-record edge cases, not as container damage",
+			"'memory bounded by a small multiple of the input length' is read as the fixed bound 8 MiB + 1024*len per library call (DESIGN.md C04/C16) and 512 MiB + 1024*len resident set per tool run; the 256x allocation of sei.ExtractSEIData for an ff-run size field is inside it and recorded as an observation (maxima.sei_extraction_*), the largest tool resident set as maxima.tool_max_rss_kib",
 		},
 		Setup: func(env *runner.Env) error {
 			s, err := loadSeeds(env)
